@@ -193,7 +193,8 @@ def preprocessC (src : Text) : Outcome Text :=
 
 /-! ## `check_nesting_depth` (on the UTF-8 bytes) -/
 
-def MAX_NESTING_DEPTH : Nat := 16
+/-- regenerated from `pest_parser.rs` on every check -/
+def MAX_NESTING_DEPTH : Nat := Generated.ParserLimits.MAX_NESTING_DEPTH
 
 def utf8 (t : Text) : List UInt8 := t.flatMap String.utf8EncodeChar
 
